@@ -42,17 +42,21 @@ func scenario(name string, pre []Op, threads []thr, barrierAt int, extra func(re
 			b, _ := json.Marshal(rec{Op: o, Dump: w.dump()})
 			vsched.Log("%s", b)
 		}
-		var wg, bar vsched.WaitGroup
+		// Only the vsched.Op before each call is a preemptible point: spawning and the barrier run
+		// in quiet regions (no preemption alternatives), the main thread does not join (the
+		// execution ends when every thread has finished).
+		var bar vsched.WaitGroup
+		vsched.QuietBegin()
 		bar.Add(len(threads))
 		for _, t := range threads {
 			t := t
-			wg.Add(1)
 			vsched.GoNamed(t.name, false, func() {
-				defer wg.Done()
 				for i, o := range t.ops {
 					if i == barrierAt {
+						vsched.QuietBegin()
 						bar.Done()
 						bar.Wait()
+						vsched.QuietEnd()
 					}
 					vsched.Op(o.String())
 					got, err := w.do(o, o.Ms)
@@ -65,7 +69,7 @@ func scenario(name string, pre []Op, threads []thr, barrierAt int, extra func(re
 				}
 			})
 		}
-		wg.Wait()
+		vsched.QuietEnd()
 	}
 	check := func(e *vsched.Exec) vx.Verdict {
 		if e.Outcome != "ok" {
